@@ -139,6 +139,45 @@ pub fn run_all(inp: &Inputs, reps: usize) -> Vec<(String, String)> {
     };
     let many: Vec<(usize, (MultiPolygon<f64>, MultiLineString<f64>, MultiPoint<f64>))> = [16usize, 64, 257].iter().map(|&n| (n, many_members(n))).collect();
     for rep in 0..reps {
+        // equal input, different identity: an operation on (p, equal copy of p) ("rep0") and on (p, p itself) ("rep1"); likewise for operands that are
+        // clones of each other at different addresses. The polygons are deliberately not in the overlay's canonical form (clockwise, starting at a
+        // middle vertex, with collinear vertices, holes in descending order)
+        if rep == 0 {
+            let noncanon: Vec<(&str, Polygon<f64>)> = vec![
+                ("cw-square-with-collinear-vertices", Polygon::new(LineString::from(vec![(2.0, 4.0), (4.0, 4.0), (4.0, 2.0), (4.0, 0.0), (2.0, 0.0), (0.0, 0.0), (0.0, 4.0), (2.0, 4.0)]), vec![])),
+                ("ccw-triangle-from-its-top", Polygon::new(LineString::from(vec![(1.0, 5.0), (0.0, 0.0), (3.0, 1.0), (1.0, 5.0)]), vec![])),
+                ("donut-holes-descending", {
+                    let d = donut(0.0, 0.0, 3);
+                    let mut hs: Vec<LineString<f64>> = d.interiors().to_vec();
+                    hs.reverse();
+                    Polygon::new(LineString::new(d.exterior().0.iter().rev().cloned().collect()), hs)
+                }),
+                ("canonical-square", sq(0.0, 0.0, 3.0)),
+            ];
+            for (name, p) in &noncanon {
+                let copy = p.clone();
+                let mp = MultiPolygon(vec![p.clone()]);
+                let mcopy = mp.clone();
+                rec(format!("Polygon::intersection same object vs equal copy|{}|rep0", name), format!("{:?}", p.intersection(&copy)));
+                rec(format!("Polygon::intersection same object vs equal copy|{}|rep1", name), format!("{:?}", p.intersection(p)));
+                rec(format!("Polygon::union same object vs equal copy|{}|rep0", name), format!("{:?}", p.union(&copy)));
+                rec(format!("Polygon::union same object vs equal copy|{}|rep1", name), format!("{:?}", p.union(p)));
+                rec(format!("Polygon::difference same object vs equal copy|{}|rep0", name), format!("{:?}", p.difference(&copy)));
+                rec(format!("Polygon::difference same object vs equal copy|{}|rep1", name), format!("{:?}", p.difference(p)));
+                rec(format!("Polygon::xor same object vs equal copy|{}|rep0", name), format!("{:?}", p.xor(&copy)));
+                rec(format!("Polygon::xor same object vs equal copy|{}|rep1", name), format!("{:?}", p.xor(p)));
+                rec(format!("MultiPolygon::intersection same object vs equal copy|{}|rep0", name), format!("{:?}", mp.intersection(&mcopy)));
+                rec(format!("MultiPolygon::intersection same object vs equal copy|{}|rep1", name), format!("{:?}", mp.intersection(&mp)));
+                rec(format!("MultiPolygon::union same object vs equal copy|{}|rep0", name), format!("{:?}", mp.union(&mcopy)));
+                rec(format!("MultiPolygon::union same object vs equal copy|{}|rep1", name), format!("{:?}", mp.union(&mp)));
+                rec(format!("relate same object vs equal copy|{}|rep0", name), format!("{:?}", p.relate(&copy)));
+                rec(format!("relate same object vs equal copy|{}|rep1", name), format!("{:?}", p.relate(p)));
+                rec(format!("distance same object vs equal copy|{}|rep0", name), format!("{:?} {:?}", Euclidean.distance(p, &copy), p.intersects(&copy)));
+                rec(format!("distance same object vs equal copy|{}|rep1", name), format!("{:?} {:?}", Euclidean.distance(p, p), p.intersects(p)));
+                rec(format!("unary_union same object twice vs two copies|{}|rep0", name), format!("{:?}", unary_union(&[p.clone(), copy.clone()])));
+                rec(format!("unary_union same object twice vs two copies|{}|rep1", name), format!("{:?}", unary_union([p, p])));
+            }
+        }
         // the same relate call on the same prepared geometry, first on a fresh one ("rep0") and again after every other partner has been
         // related to it in both operand positions ("rep1"): equal input, different history
         if rep == 0 {
